@@ -848,6 +848,16 @@ async fn ensure_proposition(
         }
     }
 
+    // The same tuple named by an earlier clause of this block resolves to the
+    // element that clause staged: one Space keeps one Proposition per tuple,
+    // and a block is no exception.
+    if let Some(id) = tx.staged_proposition(&key) {
+        if let Some(handle) = &clause.handle {
+            tx.bind_existing(handle, id)?;
+        }
+        return Ok(());
+    }
+
     let id = tx.mint(ElementKind::Proposition).await?;
     if let Some(handle) = &clause.handle {
         tx.bind_existing(handle, id)?;
